@@ -202,3 +202,13 @@ def finish(ctx):
     ctx.note("matrix_cells_expected", len(gen.all_cells()) if ctx.shard == 0 else 0)
     for q in ANCHORS[:5]:
         ctx.require(ctx.reach.get(q, 0) > 0 or ctx.evaluations == 0, "anchor %s was never entered" % q)
+
+
+def post_merge(merged, args):
+    """The coverage matrix field type x value class must be completely hit over all shards together."""
+    want = {"%s/%s" % (t, vc) for t, vc in gen.all_cells()}
+    missing = sorted(want - set(merged["cells"]))
+    merged["notes"]["matrix_cells_missing"] = missing[:20]
+    if missing and merged["evaluations"]:
+        return ["coverage matrix not completely hit: %d cells missing, e.g. %s" % (len(missing), missing[:3])]
+    return []
